@@ -15,11 +15,16 @@ Inductive field := FPrev | FNext | FKey | FVal.
 Inductive meth :=
 | MClearLL | MInsert | MRemove | MRemoveAll
 | MAdd | MAddList | MGet | MGetList | MClear | MSetDefault | MSetItem | MGetItem | MDelItem
-| MPop | MPopAll | MPopItem | MPopLast.
+| MPop | MPopAll | MPopItem | MPopLast
+| MUpdate | MUpdateExtend | MIOr.
 
 Inductive pv :=
 | VTok (n : nat) | VMissing | VBool (b : bool) | VCell (a : nat)
-| VToks (l : list nat) | VStoreRef (k : K) | VMapRef (k : K) | VItem (k v : nat).
+| VToks (l : list nat) | VStoreRef (k : K) | VMapRef (k : K) | VItem (k v : nat)
+(* arguments of update / update_extend: E as an iterable of pairs, a plain mapping or the object itself
+   (VArg), E as ANOTHER OrderedMultiDict given by its state (VOtherObj), the keyword mapping F (VKw);
+   an iterator of pairs; a local set; the object itself as a return value *)
+| VArg (a : arg) | VOtherObj (q : pomd) | VKw (m : pairs) | VPairs (l : pairs) | VSet (l : list nat) | VSelfObj.
 
 Inductive ex :=
 | EVar (x : nat) | ENone | EMissing | ERoot
@@ -42,7 +47,17 @@ Inductive ex :=
 | ENot (e : ex) | EIsMissing (e : ex)          (* not e / e is _MISSING *)
 | ECond (c a b : ex)                           (* a if c else b *)
 | ETuple2 (a b : ex)
-| ECall0 (m : meth) | ECall1 (m : meth) (a : ex) | ECall2 (m : meth) (a b : ex).   (* self.m(...) *)
+| ECall0 (m : meth) | ECall1 (m : meth) (a : ex) | ECall2 (m : meth) (a b : ex)    (* self.m(...) *)
+| ESelf | EEmptyTuple | ENoKw                  (* self / () / no keyword arguments *)
+| EIsSelf (e : ex)                             (* e is self *)
+| EIsOMD (e : ex)                              (* isinstance(e, OrderedMultiDict) *)
+| EHasKeys (e : ex)                            (* hasattr(e, 'keys') / callable(getattr(e, 'keys', None)) *)
+| EArgKeys (e : ex)                            (* e.keys() *)
+| EArgGet (e k : ex)                           (* e[k] for the mapping arguments E / F *)
+| EArgItemsMulti (e : ex)                      (* e.iteritems(multi=True) *)
+| EArgItems (e : ex)                           (* iter(e.items()) (e is self) *)
+| EGenKV (e : ex)                              (* ((k, e[k]) for k in e.keys()) *)
+| ESetNew | EInSet (k s : ex).                 (* set() / k in s *)
 
 Inductive stmt :=
 | SPass | SSeq (a b : stmt) | SAssign (x : nat) (e : ex) | SExpr (e : ex)
@@ -53,7 +68,9 @@ Inductive stmt :=
 | SMapClear | SRootReset | SInitMap                             (* the three statements of _clear_ll *)
 | SStoreSet (k v : ex) | SStoreDel (k : ex) | SStoreClear       (* super().__setitem__/__delitem__/clear *)
 | SIf (c : ex) (a b : stmt) | SWhile (c : ex) (b : stmt) | SFor (x : nat) (e : ex) (b : stmt)
-| STryKeyError (b h : stmt) | SReturn (e : ex) | SRaiseKeyError.
+| STryKeyError (b h : stmt) | SReturn (e : ex) | SRaiseKeyError
+| SSetAdd (x : nat) (k : ex)                                    (* x.add(k) for a local set x *)
+| SFor2 (x y : nat) (e : ex) (b : stmt).                        (* for x, y in e: b *)
 
 Definition type_error : exn := OtherExn 7.
 
@@ -250,6 +267,77 @@ Section Interp.
         | (Ok _, s1) => raise type_error s1
         | r => r
         end
+    | ESelf => (Ok VSelfObj, s)
+    | EEmptyTuple => (Ok (VArg (APairs [])), s)
+    | ENoKw => (Ok (VKw []), s)
+    | EIsSelf a =>
+        match eval en a s with
+        | (Ok (VArg ASelf), s1) => (Ok (VBool true), s1)
+        | (Ok (VArg _), s1) | (Ok (VOtherObj _), s1) => (Ok (VBool false), s1)
+        | (Ok _, s1) => raise type_error s1
+        | r => r
+        end
+    | EIsOMD a =>
+        match eval en a s with
+        | (Ok (VArg ASelf), s1) | (Ok (VArg AOther), s1) | (Ok (VOtherObj _), s1) => (Ok (VBool true), s1)
+        | (Ok (VArg _), s1) => (Ok (VBool false), s1)
+        | (Ok _, s1) => raise type_error s1
+        | r => r
+        end
+    | EHasKeys a =>
+        match eval en a s with
+        | (Ok (VArg (APairs _)), s1) => (Ok (VBool false), s1)
+        | (Ok (VArg _), s1) | (Ok (VOtherObj _), s1) => (Ok (VBool true), s1)
+        | (Ok _, s1) => raise type_error s1
+        | r => r
+        end
+    | EArgKeys a =>
+        match eval en a s with
+        | (Ok (VArg (AMap m)), s1) | (Ok (VKw m), s1) => (Ok (VToks (map fst m)), s1)
+        | (Ok _, s1) => raise type_error s1
+        | r => r
+        end
+    | EArgGet a k =>
+        match eval en a s with
+        | (Ok (VArg (AMap m)), s1) | (Ok (VKw m), s1) =>
+            match eval en k s1 with
+            | (Ok (VTok kk), s2) =>
+                match d_get m kk with Some v => (Ok (VTok v), s2) | None => raise KeyError s2 end
+            | (Ok _, s2) => raise type_error s2
+            | r => r
+            end
+        | (Ok _, s1) => raise type_error s1
+        | r => r
+        end
+    | EArgItemsMulti a =>
+        match eval en a s with
+        | (Ok (VOtherObj q), s1) => (Ok (VPairs (pm_items q)), s1)
+        | (Ok (VArg ASelf), s1) => (Ok (VPairs (pm_items s1)), s1)
+        | (Ok _, s1) => raise type_error s1
+        | r => r
+        end
+    | EArgItems a =>
+        match eval en a s with
+        | (Ok (VArg ASelf), s1) =>
+            match pm_items1 s1 with Ok l => (Ok (VPairs l), s1) | Raise x => (Raise x, s1) end
+        | (Ok _, s1) => raise type_error s1
+        | r => r
+        end
+    | EGenKV a =>
+        match eval en a s with
+        | (Ok (VArg (AMap m)), s1) =>
+            (Ok (VPairs (map (fun k => (k, match d_get m k with Some v => v | None => none_tok end)) (map fst m))), s1)
+        | (Ok _, s1) => raise type_error s1
+        | r => r
+        end
+    | ESetNew => (Ok (VSet []), s)
+    | EInSet k st =>
+        tok1 k (fun kk s1 =>
+          match eval en st s1 with
+          | (Ok (VSet l), s2) => (Ok (VBool (mem_nat kk l)), s2)
+          | (Ok _, s2) => raise type_error s2
+          | r => r
+          end)
     | ECall0 m => callee m [] s
     | ECall1 m a =>
         match eval en a s with
@@ -303,6 +391,17 @@ Section Interp.
     | t :: r =>
         match body (env_set en x (VTok t)) s with
         | (ONormal, en2, s2) => for_each x r body en2 s2
+        | o => o
+        end
+    end.
+
+  Fixpoint for_each2 (x y : nat) (l : pairs) (body : env -> pomd -> outcome * env * pomd)
+                     (en : env) (s : pomd) : outcome * env * pomd :=
+    match l with
+    | [] => (ONormal, en, s)
+    | (a, b) :: r =>
+        match body (env_set (env_set en x (VTok a)) y (VTok b)) s with
+        | (ONormal, en2, s2) => for_each2 x y r body en2 s2
         | o => o
         end
     end.
@@ -458,6 +557,8 @@ Section Interp.
     | SFor x e b =>
         match eval en e s with
         | (Ok (VToks l), s1) => for_each x l (exec b) en s1
+        | (Ok (VKw m), s1) => for_each x (map fst m) (exec b) en s1                (* for k in F *)
+        | (Ok (VOtherObj q), s1) => for_each x (pm_iterkeys q) (exec b) en s1      (* for k in <OMD> *)
         | (Ok _, s1) => (ORaise type_error, en, s1)
         | (Raise x0, s1) => (ORaise x0, en, s1)
         end
@@ -472,6 +573,23 @@ Section Interp.
         | (Raise x0, s1) => (ORaise x0, en, s1)
         end
     | SRaiseKeyError => (ORaise KeyError, en, s)
+    | SSetAdd x k =>
+        match eval en k s with
+        | (Ok (VTok kk), s1) =>
+            match env_get en x with
+            | Ok (VSet l) => (ONormal, env_set en x (VSet (kk :: l)), s1)
+            | Ok _ => (ORaise type_error, en, s1)
+            | Raise x0 => (ORaise x0, en, s1)
+            end
+        | (Ok _, s1) => (ORaise type_error, en, s1)
+        | (Raise x0, s1) => (ORaise x0, en, s1)
+        end
+    | SFor2 x y e b =>
+        match eval en e s with
+        | (Ok (VPairs l), s1) | (Ok (VArg (APairs l)), s1) => for_each2 x y l (exec b) en s1
+        | (Ok _, s1) => (ORaise type_error, en, s1)
+        | (Raise x0, s1) => (ORaise x0, en, s1)
+        end
     end.
 
   Fixpoint bind_params (i : nat) (args : list pv) : env :=
